@@ -401,7 +401,7 @@ Section Spec.
     sel_hash b sel mod N.max 1 (SYNC_COMMITTEE_SIZE c / SYNC_COMMITTEE_SUBNET_COUNT / TARGET_AGGREGATORS_PER_SYNC_SUBCOMMITTEE) =? 0.
   (* get_sync_subcommittee_pubkeys, as validator indices *)
   Definition sync_subcommittee (indices : list N) (sub : N) : list N :=
-    firstn (N.to_nat sync_subcommittee_size) (skipn (N.to_nat (sub * sync_subcommittee_size)) indices).
+    firstN sync_subcommittee_size (skipN (sub * sync_subcommittee_size) indices).
 
   Fixpoint member_pubkeys (e : entry) (l : list N) : option (list pubkey) :=
     match l with
